@@ -1,3 +1,4 @@
+import FrappyProofs.Lemmas.Lifecycle
 import FrappyProofs.Lemmas.Logging
 import FrappyProofs.Lemmas.Rotate
 import FrappyProofs.Props.C15
